@@ -285,4 +285,516 @@ theorem stops_facts {l : Nat} (hl : l ≤ 15) {rest : List Tok} (h : Stops l res
         · exact absurd hll hh
         · exact hh
 
+/-! ### descending through the levels -/
+
+def ParsesFrom (F l : Nat) (toks : List Tok) (e : Expr) (rest : List Tok) : Prop :=
+  ∀ f, F ≤ f → parseLevel f l toks = some (some e, rest)
+
+theorem level_cases {l : Nat} (h : l ≤ 13) : isLoopLevel l = true ∨ l = 1 ∨ l = 2 ∨ l = 13 := by
+  have : l = 0 ∨ l = 1 ∨ l = 2 ∨ l = 3 ∨ l = 4 ∨ l = 5 ∨ l = 6 ∨ l = 7 ∨ l = 8 ∨ l = 9 ∨ l = 10 ∨
+      l = 11 ∨ l = 12 ∨ l = 13 := by omega
+  rcases this with rfl | rfl | rfl | rfl | rfl | rfl | rfl | rfl | rfl | rfl | rfl | rfl | rfl | rfl <;>
+    simp [isLoopLevel]
+
+theorem binLoop_stop (f l : Nat) (v : Option Expr) (rest : List Tok)
+    (h : symBinIn rest (levelOps l) = none) : binLoop (f + 1) l v rest = some (v, rest) := by
+  rw [binLoop_succ, h]
+
+theorem descend_one {F l : Nat} {toks : List Tok} {e : Expr} {rest : List Tok} (hl : l ≤ 13)
+    (hF : 1 ≤ F) (h : ParsesFrom F (l + 1) toks e rest) (hs : StopFacts l rest) :
+    ParsesFrom (F + 1) l toks e rest := by
+  intro f hf
+  obtain ⟨f', rfl⟩ : ∃ f', f = f' + 2 := ⟨f - 2, by omega⟩
+  have h1 := h (f' + 1) (by omega)
+  rcases level_cases hl with hloop | rfl | rfl | rfl
+  · rw [parseLevel_loop _ _ _ hloop, h1]
+    exact binLoop_stop _ _ _ _ (hs.loop l (Nat.le_refl _) (by omega) hloop)
+  · rw [parseLevel_assign, h1]
+    simp only [hs.assign (by omega)]
+  · rw [parseLevel_ternary, h1]
+    simp only []
+    split
+    · exact absurd rfl (hs.quest (by omega) _)
+    · rfl
+  · rw [parseLevel_power, h1]
+    simp only []
+    split
+    · exact absurd rfl (hs.power (by omega) _)
+    · rfl
+
+theorem descend {L : Nat} : ∀ (d l F : Nat) {toks : List Tok} {e : Expr} {rest : List Tok},
+    l + d = L → L ≤ 14 → 1 ≤ F → ParsesFrom F L toks e rest → Stops l rest →
+    ParsesFrom (F + d) l toks e rest
+  | 0, l, F, toks, e, rest, hd, _, _, h, _ => by
+    have : l = L := by omega
+    subst this
+    simpa using h
+  | d + 1, l, F, toks, e, rest, hd, hL, hF, h, hs => by
+    have hsf := stops_facts (l := l) (by omega) hs
+    have h1 := descend d (l + 1) F (by omega) hL hF h (hsf.mono (l + 1) (by omega) (by omega))
+    have h2 := descend_one (l := l) (by omega) (by omega) h1 hsf
+    intro f hf
+    exact h2 f (by omega)
+
+/-! ### printing -/
+
+def ntoks (e : Expr) : Nat := (printArith e).length
+
+theorem print_binary {op : BinOp} {s : Sym} (h : op.sym = some s) (x y : Expr) :
+    printArith (.binary op x y) = printArith x ++ (.sym s :: printArith y) := by
+  rw [printArith, h]
+  simp
+
+theorem print_nonempty : ∀ e : Expr, 1 ≤ ntoks e := by
+  intro e
+  unfold ntoks
+  cases e with
+  | word w => simp [printArith]
+  | paren x => simp [printArith]
+  | unary op post x => rw [printArith]; split <;> simp
+  | binary op x y =>
+    rw [printArith]
+    split
+    · simp; omega
+    · have : 1 ≤ (printArith x).length := by
+        have := print_nonempty x; unfold ntoks at this; exact this
+      simp; omega
+
+/-- operator symbol facts -/
+def chkOp (o : BinOp) : Bool :=
+  match o.sym with
+  | none => true
+  | some s =>
+    s.bin == some o &&
+      (!isLoopLevel (opLevel o) || (levelOps (opLevel o)).contains o) &&
+      (!(o == .assgn || (assignOp o).isSome) || (assignOps.contains o && opLevel o == 1)) &&
+      s != .addAdd && s != .subSub
+
+theorem chkOp_all (o : BinOp) : chkOp o = true := by cases o <;> decide
+
+theorem symBinIn_hit {o : BinOp} {s : Sym} (hs : o.sym = some s) (r : List Tok) (ops : List BinOp)
+    (hc : ops.contains o = true) : symBinIn (.sym s :: r) ops = some (o, r) := by
+  have h := chkOp_all o
+  unfold chkOp at h
+  rw [hs] at h
+  simp only [Bool.and_eq_true, beq_iff_eq] at h
+  unfold symBinIn
+  simp only [h.1.1.1.1, hc, if_true]
+
+/-! ### the induction -/
+
+def S1 (e : Expr) : Prop :=
+  ∀ l rest, l ≤ exprLevel e → Stops l rest →
+    ParsesFrom (16 * ntoks e) l (printArith e ++ rest) e rest
+
+def S2 (e : Expr) : Prop :=
+  ∀ L, exprLevel e = L → isLoopLevel L = true → ∀ rest R G, Stops (L + 1) rest → 1 ≤ G →
+    (∀ f2, G ≤ f2 → binLoop f2 L (some e) rest = R) →
+    ∀ f, 16 * ntoks e + G ≤ f + 14 → parseLevel f L (printArith e ++ rest) = R
+
+theorem parsesFrom_mono {F F' l : Nat} {toks : List Tok} {e : Expr} {rest : List Tok}
+    (h : ParsesFrom F l toks e rest) (hle : F ≤ F') : ParsesFrom F' l toks e rest :=
+  fun f hf => h f (by omega)
+
+/-- from the value level (15) down to any level -/
+theorem from_value {e : Expr} {toks rest : List Tok} {F l : Nat}
+    (h15 : ParsesFrom F 15 toks e rest) (hF : 1 ≤ F)
+    (hhead : ∀ t r, toks = t :: r → unarySym t = none) (hl : l ≤ 15) (hs : Stops l rest) :
+    ParsesFrom (F + 15) l toks e rest := by
+  by_cases h15l : l = 15
+  · subst h15l; exact parsesFrom_mono h15 (by omega)
+  · have h14 : ParsesFrom (F + 1) 14 toks e rest := by
+      intro f hf
+      obtain ⟨f', rfl⟩ : ∃ f', f = f' + 1 := ⟨f - 1, by omega⟩
+      rw [parseLevel_unary_pass _ _ hhead]
+      exact h15 f' (by omega)
+    have := descend (L := 14) (14 - l) l (F + 1) (by omega) (by omega) (by omega) h14 hs
+    exact parsesFrom_mono this (by omega)
+
+theorem stops_of_tok {l : Nat} {t : Tok} {r : List Tok} (h : stopTok l t = true) : Stops l (t :: r) :=
+  Or.inr ⟨t, r, rfl, h⟩
+
+theorem S1_word (w : Bytes) : S1 (.word w) := by
+  intro l rest hl hs
+  have hsf := stops_facts (l := l) (by simp [exprLevel] at hl; omega) hs
+  have h15 : ParsesFrom 1 15 (printArith (.word w) ++ rest) (.word w) rest := by
+    intro f hf
+    obtain ⟨f', rfl⟩ : ∃ f', f = f' + 1 := ⟨f - 1, by omega⟩
+    exact value_word f' w rest hsf.noPost
+  have := from_value h15 (by omega) (by intro t r ht; simp [printArith] at ht; rw [← ht.1]; rfl)
+    (by simp [exprLevel] at hl; omega) hs
+  exact parsesFrom_mono this (by simp [ntoks, printArith])
+
+theorem S1_paren (x : Expr) (hx : S1 x) : S1 (.paren x) := by
+  intro l rest hl hs
+  have hl15 : l ≤ 15 := by simp [exprLevel] at hl; omega
+  have hsf := stops_facts hl15 hs
+  have hin := hx 0 (.rparen :: rest) (Nat.zero_le _) (stops_of_tok rfl)
+  have e1 : printArith (.paren x) ++ rest = .lparen :: (printArith x ++ .rparen :: rest) := by
+    simp [printArith]
+  have h15 : ParsesFrom (16 * ntoks x + 1) 15 (printArith (.paren x) ++ rest) (.paren x) rest := by
+    intro f hf
+    obtain ⟨f', rfl⟩ : ∃ f', f = f' + 1 := ⟨f - 1, by omega⟩
+    rw [e1]
+    exact value_paren f' x _ rest hsf.noPost (hin f' (by omega))
+  have := from_value h15 (by omega) (by intro t r ht; rw [e1] at ht; simp at ht; rw [← ht.1]; rfl)
+    hl15 hs
+  refine parsesFrom_mono this ?_
+  have : ntoks (.paren x) = ntoks x + 2 := by simp [ntoks, printArith]
+  omega
+
+theorem S1_incdec (op : UnOp) (post : Bool) (n : Bytes) (hop : op = .inc ∨ op = .dec)
+    (hn : validName n = true) : S1 (.unary op post (.word n)) := by
+  intro l rest hl hs
+  have hlev : exprLevel (.unary op post (.word n)) = 15 := by simp [exprLevel, hop]
+  have hl15 : l ≤ 15 := by omega
+  have hsf := stops_facts hl15 hs
+  have hnt : ntoks (.unary op post (.word n)) = 2 := by
+    unfold ntoks; rw [printArith]; cases post <;> simp [printArith]
+  cases post with
+  | true =>
+    have e1 : printArith (.unary op true (.word n)) ++ rest = .word n :: .sym op.sym :: rest := by
+      simp [printArith]
+    have h15 : ParsesFrom 1 15 (printArith (.unary op true (.word n)) ++ rest)
+        (.unary op true (.word n)) rest := by
+      intro f hf
+      obtain ⟨f', rfl⟩ : ∃ f', f = f' + 1 := ⟨f - 1, by omega⟩
+      rw [e1]
+      exact value_postinc f' n op rest hn hop
+    have := from_value h15 (by omega) (by intro t r ht; rw [e1] at ht; simp at ht; rw [← ht.1]; rfl)
+      hl15 hs
+    exact parsesFrom_mono this (by omega)
+  | false =>
+    have e1 : printArith (.unary op false (.word n)) ++ rest = .sym op.sym :: .word n :: rest := by
+      simp [printArith]
+    have h15 : ParsesFrom 2 15 (printArith (.unary op false (.word n)) ++ rest)
+        (.unary op false (.word n)) rest := by
+      intro f hf
+      obtain ⟨f', rfl⟩ : ∃ f', f = f' + 2 := ⟨f - 2, by omega⟩
+      rw [e1]
+      exact value_preinc f' n op rest hop hsf.noPost
+    have := from_value h15 (by omega)
+      (by intro t r ht; rw [e1] at ht; simp at ht; rw [← ht.1]; rcases hop with rfl | rfl <;> rfl)
+      hl15 hs
+    exact parsesFrom_mono this (by omega)
+
+theorem unarySym_of {op : UnOp} (hop : ¬ (op = .inc ∨ op = .dec)) : unarySym (.sym op.sym) = some op := by
+  cases op <;> simp at hop <;> rfl
+
+theorem S1_unary (op : UnOp) (x : Expr) (hop : ¬ (op = .inc ∨ op = .dec)) (hx : S1 x)
+    (hlx : 14 ≤ exprLevel x) : S1 (.unary op false x) := by
+  intro l rest hl hs
+  have hlev : exprLevel (.unary op false x) = 14 := by simp [exprLevel, hop]
+  have hl14 : l ≤ 14 := by omega
+  have hsf := stops_facts (l := l) (by omega) hs
+  have hin := hx 14 rest hlx (hsf.mono 14 hl14 (by omega))
+  have e1 : printArith (.unary op false x) ++ rest = .sym op.sym :: (printArith x ++ rest) := by
+    simp [printArith]
+  have hnt : ntoks (.unary op false x) = ntoks x + 1 := by simp [ntoks, printArith]
+  have h14 : ParsesFrom (16 * ntoks x + 1) 14 (printArith (.unary op false x) ++ rest)
+      (.unary op false x) rest := by
+    intro f hf
+    obtain ⟨f', rfl⟩ : ∃ f', f = f' + 1 := ⟨f - 1, by omega⟩
+    rw [e1, parseLevel_unary_op _ _ _ _ (unarySym_of hop), hin f' (by omega)]
+  have := descend (L := 14) (14 - l) l _ (by omega) (by omega) (by omega) h14 hs
+  exact parsesFrom_mono this (by omega)
+
+theorem ntoks_binary {op : BinOp} {s : Sym} (h : op.sym = some s) (x y : Expr) :
+    ntoks (.binary op x y) = ntoks x + 1 + ntoks y := by
+  unfold ntoks; rw [print_binary h]; simp; omega
+
+theorem stopTok_op {o : BinOp} {s : Sym} (hs : o.sym = some s) {l : Nat} (hl : opLevel o < l)
+    (hc : o ≠ .ternColon) : stopTok l (.sym s) = true := by
+  have h := chkOp_all o
+  unfold chkOp at h
+  rw [hs] at h
+  simp only [Bool.and_eq_true, beq_iff_eq] at h
+  have hb := h.1.1.1.1
+  cases s <;> simp [stopTok, hb, hl]
+
+theorem S1_assign (op : BinOp) (n : Bytes) (y : Expr) (s : Sym)
+    (hass : op = .assgn ∨ (assignOp op).isSome = true) (hs : op.sym = some s)
+    (hn : validName n = true) (hy : S1 y) (hly : 1 ≤ exprLevel y) :
+    S1 (.binary op (.word n) y) := by
+  intro l rest hl hst
+  have hc := chkOp_all op
+  unfold chkOp at hc
+  rw [hs] at hc
+  simp only [Bool.and_eq_true, beq_iff_eq] at hc
+  have hlevel : opLevel op = 1 ∧ assignOps.contains op = true := by
+    have := hc.1.1.2
+    have hb : (op == BinOp.assgn || (assignOp op).isSome) = true := by
+      rcases hass with h | h
+      · simp [h]
+      · simp [h]
+    simp [hb] at this
+    exact ⟨this.2, by simpa using this.1⟩
+  have hlev : exprLevel (.binary op (.word n) y) = 1 := hlevel.1
+  have hl1 : l ≤ 1 := by omega
+  have hsf := stops_facts (l := l) (by omega) hst
+  have hnc : op ≠ .ternColon := by
+    intro h; subst h; rcases hass with h | h
+    · cases h
+    · simp [assignOp] at h
+  have hx := S1_word n 2 (.sym s :: (printArith y ++ rest)) (by simp [exprLevel])
+    (stops_of_tok (stopTok_op hs (by omega) hnc))
+  have hyy := hy 1 rest hly (hsf.mono 1 hl1 (by omega))
+  have e1 : printArith (.binary op (.word n) y) ++ rest =
+      printArith (.word n) ++ (.sym s :: (printArith y ++ rest)) := by
+    rw [print_binary hs]; simp
+  have hnt := ntoks_binary hs (.word n) y
+  have hnw : ntoks (.word n) = 1 := by simp [ntoks, printArith]
+  have h1 : ParsesFrom (16 * ntoks y + 17) 1 (printArith (.binary op (.word n) y) ++ rest)
+      (.binary op (.word n) y) rest := by
+    intro f hf
+    obtain ⟨f', rfl⟩ : ∃ f', f = f' + 1 := ⟨f - 1, by omega⟩
+    rw [e1, parseLevel_assign, hx f' (by omega)]
+    simp only [symBinIn_hit hs _ _ hlevel.2, isArithName, hn, Bool.not_true, Bool.false_eq_true,
+      if_false, hyy f' (by omega)]
+  have := descend (L := 1) (1 - l) l _ (by omega) (by omega) (by omega) h1 hst
+  exact parsesFrom_mono this (by omega)
+
+theorem S1_pow (x y : Expr) (hx : S1 x) (hy : S1 y) (hlx : 14 ≤ exprLevel x)
+    (hly : 13 ≤ exprLevel y) : S1 (.binary .pow x y) := by
+  intro l rest hl hst
+  have hlev : exprLevel (.binary .pow x y) = 13 := rfl
+  have hl13 : l ≤ 13 := by omega
+  have hsf := stops_facts (l := l) (by omega) hst
+  have hxx := hx 14 (.sym .power :: (printArith y ++ rest)) hlx (stops_of_tok (by decide))
+  have hyy := hy 13 rest hly (hsf.mono 13 hl13 (by omega))
+  have e1 : printArith (.binary .pow x y) ++ rest =
+      printArith x ++ (.sym .power :: (printArith y ++ rest)) := by
+    rw [print_binary (s := .power) rfl]; simp
+  have hnt := ntoks_binary (op := .pow) (s := .power) rfl x y
+  have h13 : ParsesFrom (16 * ntoks x + 16 * ntoks y + 1) 13 (printArith (.binary .pow x y) ++ rest)
+      (.binary .pow x y) rest := by
+    intro f hf
+    obtain ⟨f', rfl⟩ : ∃ f', f = f' + 1 := ⟨f - 1, by omega⟩
+    rw [e1, parseLevel_power, hxx f' (by omega)]
+    simp only [hyy f' (by omega)]
+  have := descend (L := 13) (13 - l) l _ (by omega) (by omega) (by omega) h13 hst
+  exact parsesFrom_mono this (by omega)
+
+theorem print_head_ne_colon : ∀ (e : Expr) (tail r : List Tok),
+    printArith e ++ tail ≠ .sym .colon :: r := by
+  intro e
+  induction e with
+  | word w => intro tail r h; simp [printArith] at h
+  | paren x _ => intro tail r h; simp [printArith] at h
+  | unary op post x ih =>
+    intro tail r h
+    rw [printArith] at h
+    cases post with
+    | true =>
+      simp only [if_true, List.append_assoc] at h
+      exact ih _ _ h
+    | false =>
+      simp at h
+      cases op <;> simp [UnOp.sym] at h
+  | binary op x y ihx _ =>
+    intro tail r h
+    rw [printArith] at h
+    split at h
+    · simp only [List.append_assoc] at h; exact ihx _ _ h
+    · simp only [List.append_assoc] at h; exact ihx _ _ h
+
+theorem S1_tern (c t fe : Expr) (hc : S1 c) (ht : S1 t) (hf : S1 fe) (hlc : 3 ≤ exprLevel c)
+    (hlf : 2 ≤ exprLevel fe) : S1 (.binary .ternQuest c (.binary .ternColon t fe)) := by
+  intro l rest hl hst
+  have hlev : exprLevel (.binary .ternQuest c (.binary .ternColon t fe)) = 2 := rfl
+  have hl2 : l ≤ 2 := by omega
+  have hsf := stops_facts (l := l) (by omega) hst
+  have hcc := hc 3 (.sym .quest :: (printArith t ++ (.sym .colon :: (printArith fe ++ rest)))) hlc
+    (stops_of_tok (by decide))
+  have htt := ht 0 (.sym .colon :: (printArith fe ++ rest)) (Nat.zero_le _) (stops_of_tok (by decide))
+  have hff := hf 2 rest hlf (hsf.mono 2 hl2 (by omega))
+  have e1 : printArith (.binary .ternQuest c (.binary .ternColon t fe)) ++ rest =
+      printArith c ++ (.sym .quest :: (printArith t ++ (.sym .colon :: (printArith fe ++ rest)))) := by
+    rw [print_binary (s := .quest) rfl, print_binary (s := .colon) rfl]; simp
+  have hnt : ntoks (.binary .ternQuest c (.binary .ternColon t fe)) =
+      ntoks c + 1 + (ntoks t + 1 + ntoks fe) := by
+    rw [ntoks_binary (s := .quest) rfl, ntoks_binary (s := .colon) rfl]
+  have h2 : ParsesFrom (16 * ntoks c + 16 * ntoks t + 16 * ntoks fe + 1) 2
+      (printArith (.binary .ternQuest c (.binary .ternColon t fe)) ++ rest)
+      (.binary .ternQuest c (.binary .ternColon t fe)) rest := by
+    intro f hf'
+    obtain ⟨f', rfl⟩ : ∃ f', f = f' + 1 := ⟨f - 1, by omega⟩
+    rw [e1, parseLevel_ternary, hcc f' (by omega)]
+    simp only []
+    split
+    · rename_i heq; exact absurd heq (by simp)
+    · rename_i heq _; exact absurd heq (print_head_ne_colon t _ _)
+    · rename_i c' h1 h2 h3
+      cases h2
+      rw [htt f' (by omega)]
+      simp only [hff f' (by omega)]
+  have := descend (L := 2) (2 - l) l _ (by omega) (by omega) (by omega) h2 hst
+  exact parsesFrom_mono this (by omega)
+
+theorem exprLevel_binary (op : BinOp) (x y : Expr) : exprLevel (.binary op x y) = opLevel op := by
+  cases op <;> rfl
+
+theorem loop_contains {op : BinOp} {s : Sym} (hs : op.sym = some s)
+    (hloop : isLoopLevel (opLevel op) = true) : (levelOps (opLevel op)).contains op = true := by
+  have h := chkOp_all op
+  unfold chkOp at h
+  rw [hs] at h
+  simp only [Bool.and_eq_true, beq_iff_eq] at h
+  have := h.1.1.1.2
+  simpa [hloop] using this
+
+theorem S2_loop (op : BinOp) (x y : Expr) (s : Sym) (hs : op.sym = some s)
+    (hloop : isLoopLevel (opLevel op) = true) (hx1 : S1 x) (hx2 : S2 x) (hy : S1 y)
+    (hlx : opLevel op ≤ exprLevel x) (hly : opLevel op + 1 ≤ exprLevel y) :
+    S2 (.binary op x y) := by
+  intro L hL _ rest R G hst hG hR f hf
+  rw [exprLevel_binary] at hL
+  subst hL
+  have hL12 : opLevel op ≤ 12 := by
+    unfold isLoopLevel at hloop
+    simp at hloop
+    omega
+  have hnc : op ≠ .ternColon := by intro h; subst h; simp [opLevel, exprLevel, isLoopLevel] at hloop
+  have hcont := loop_contains hs hloop
+  have e1 : printArith (.binary op x y) ++ rest =
+      printArith x ++ (.sym s :: (printArith y ++ rest)) := by
+    rw [print_binary hs]; simp
+  have hnt := ntoks_binary hs x y
+  have hst' : Stops (opLevel op + 1) (.sym s :: (printArith y ++ rest)) :=
+    stops_of_tok (stopTok_op hs (by omega) hnc)
+  have hyy := hy (opLevel op + 1) rest hly hst
+  have step : ∀ f2, 16 * ntoks y + G + 1 ≤ f2 →
+      binLoop f2 (opLevel op) (some x) (.sym s :: (printArith y ++ rest)) = R := by
+    intro f2 hf2
+    obtain ⟨f3, rfl⟩ : ∃ f3, f2 = f3 + 1 := ⟨f2 - 1, by omega⟩
+    rw [binLoop_succ, symBinIn_hit hs _ _ hcont]
+    simp only [hyy f3 (by omega)]
+    exact hR f3 (by omega)
+  have htx := print_nonempty x
+  rw [e1]
+  by_cases hcase : opLevel op + 1 ≤ exprLevel x
+  · have hxx := hx1 (opLevel op + 1) _ hcase hst'
+    obtain ⟨f', rfl⟩ : ∃ f', f = f' + 1 := ⟨f - 1, by omega⟩
+    rw [parseLevel_loop _ _ _ hloop, hxx f' (by omega)]
+    exact step f' (by omega)
+  · have hxl : exprLevel x = opLevel op := by omega
+    exact hx2 (opLevel op) hxl hloop _ R (16 * ntoks y + G + 1) hst' (by omega) step f (by omega)
+
+theorem S1_loop (op : BinOp) (x y : Expr) (s : Sym) (hs : op.sym = some s)
+    (hloop : isLoopLevel (opLevel op) = true) (h2 : S2 (.binary op x y)) : S1 (.binary op x y) := by
+  intro l rest hl hst
+  rw [exprLevel_binary] at hl
+  have hL12 : opLevel op ≤ 12 := by
+    unfold isLoopLevel at hloop
+    simp at hloop
+    omega
+  have hsf := stops_facts (l := l) (by omega) hst
+  have hnt := ntoks_binary hs x y
+  have htx := print_nonempty x
+  have hty := print_nonempty y
+  have hown : ∀ rest', Stops (opLevel op) rest' →
+      ParsesFrom (16 * ntoks (.binary op x y) - 13) (opLevel op)
+        (printArith (.binary op x y) ++ rest') (.binary op x y) rest' := by
+    intro rest' hst'
+    have hsf' := stops_facts (l := opLevel op) (by omega) hst'
+    intro f hf
+    refine h2 (opLevel op) (exprLevel_binary op x y) hloop rest' _ 1
+      (hsf'.mono _ (by omega) (by omega)) (Nat.le_refl _) ?_ f (by omega)
+    intro f2 hf2
+    obtain ⟨f3, rfl⟩ : ∃ f3, f2 = f3 + 1 := ⟨f2 - 1, by omega⟩
+    exact binLoop_stop _ _ _ _ (hsf'.loop _ (Nat.le_refl _) (by omega) hloop)
+  have h := hown rest (hsf.mono _ hl (by omega))
+  have := descend (L := opLevel op) (opLevel op - l) l _ (by omega) (by omega) (by omega) h hst
+  exact parsesFrom_mono this (by omega)
+
+theorem S2_vacuous {e : Expr} (h : isLoopLevel (exprLevel e) = false) : S2 e := by
+  intro L hL hloop
+  rw [← hL, h] at hloop
+  cases hloop
+
+theorem assign_has_sym {op : BinOp} (h : op = .assgn ∨ (assignOp op).isSome = true) :
+    ∃ s, op.sym = some s := by
+  rcases h with rfl | h
+  · exact ⟨_, rfl⟩
+  · cases op <;> simp [assignOp] at h <;> exact ⟨_, rfl⟩
+
+theorem rest_is_loop {op : BinOp} (h1 : ¬ (op = .assgn ∨ (assignOp op).isSome = true))
+    (h2 : op ≠ .ternQuest) (h3 : op ≠ .pow) (h4 : ¬ (op = .ternColon ∨ op.sym = none)) :
+    isLoopLevel (opLevel op) = true := by
+  cases op <;> simp [assignOp, BinOp.sym] at h1 h2 h3 h4 <;> decide
+
+theorem main_ind (e : Expr) :
+    (PrecOK e = true → S1 e ∧ S2 e) ∧
+    (PrecOKColon e = true → ∃ t f, e = .binary .ternColon t f ∧ S1 t ∧ S1 f ∧ 2 ≤ exprLevel f) := by
+  induction e with
+  | word w =>
+    exact ⟨fun _ => ⟨S1_word w, S2_vacuous rfl⟩, fun h => by simp [PrecOKColon] at h⟩
+  | paren x ih =>
+    refine ⟨fun h => ?_, fun h => by simp [PrecOKColon] at h⟩
+    simp only [PrecOK] at h
+    exact ⟨S1_paren x (ih.1 h).1, S2_vacuous rfl⟩
+  | unary op post x ih =>
+    refine ⟨fun h => ?_, fun h => by simp [PrecOKColon] at h⟩
+    by_cases hop : op = .inc ∨ op = .dec
+    · simp only [PrecOK, hop, if_true] at h
+      obtain ⟨n, rfl, hn⟩ := isNameWord_elim h
+      exact ⟨S1_incdec op post n hop hn, S2_vacuous (by simp [exprLevel, hop, isLoopLevel])⟩
+    · simp only [PrecOK, hop, if_false, Bool.and_eq_true, Bool.not_eq_true', decide_eq_true_eq] at h
+      obtain ⟨⟨hp, hpx⟩, hlx⟩ := h
+      subst hp
+      exact ⟨S1_unary op x hop (ih.1 hpx).1 hlx, S2_vacuous (by simp [exprLevel, hop, isLoopLevel])⟩
+  | binary op x y ihx ihy =>
+    constructor
+    · intro h
+      by_cases hass : op = .assgn ∨ (assignOp op).isSome = true
+      · simp only [PrecOK, hass, if_true, Bool.and_eq_true, decide_eq_true_eq] at h
+        obtain ⟨⟨hnx, hpy⟩, hly⟩ := h
+        obtain ⟨n, rfl, hn⟩ := isNameWord_elim hnx
+        obtain ⟨s, hs⟩ := assign_has_sym hass
+        refine ⟨S1_assign op n y s hass hs hn (ihy.1 hpy).1 hly, S2_vacuous ?_⟩
+        rw [exprLevel_binary]
+        rcases hass with rfl | h'
+        · rfl
+        · cases op <;> simp [assignOp] at h' <;> rfl
+      · simp only [PrecOK, hass, if_false] at h
+        by_cases ht : op = .ternQuest
+        · subst ht
+          simp only [if_true, Bool.and_eq_true, decide_eq_true_eq] at h
+          obtain ⟨⟨hpx, hlx⟩, hcol⟩ := h
+          obtain ⟨t, f, rfl, ht1, hf1, hlf⟩ := ihy.2 hcol
+          exact ⟨S1_tern x t f (ihx.1 hpx).1 ht1 hf1 hlx hlf, S2_vacuous rfl⟩
+        · simp only [ht, if_false] at h
+          by_cases hp : op = .pow
+          · subst hp
+            simp only [if_true, Bool.and_eq_true, decide_eq_true_eq] at h
+            obtain ⟨⟨⟨hpx, hpy⟩, hlx⟩, hly⟩ := h
+            exact ⟨S1_pow x y (ihx.1 hpx).1 (ihy.1 hpy).1 hlx hly, S2_vacuous rfl⟩
+          · simp only [hp, if_false] at h
+            by_cases hc : op = .ternColon ∨ op.sym = none
+            · simp [hc] at h
+            · simp only [hc, if_false, Bool.and_eq_true, decide_eq_true_eq] at h
+              obtain ⟨⟨⟨hpx, hpy⟩, hlx⟩, hly⟩ := h
+              rw [exprLevel_binary] at hlx hly
+              have hloop := rest_is_loop hass ht hp hc
+              obtain ⟨s, hs⟩ : ∃ s, op.sym = some s := by
+                cases hsym : op.sym with
+                | none => exact absurd (Or.inr hsym) hc
+                | some s => exact ⟨s, rfl⟩
+              have h2 := S2_loop op x y s hs hloop (ihx.1 hpx).1 (ihx.1 hpx).2 (ihy.1 hpy).1 hlx hly
+              exact ⟨S1_loop op x y s hs hloop h2, h2⟩
+    · intro h
+      simp only [PrecOKColon, Bool.and_eq_true, beq_iff_eq, decide_eq_true_eq] at h
+      obtain ⟨⟨⟨hop, hpt⟩, hpf⟩, hlf⟩ := h
+      subst hop
+      exact ⟨x, y, rfl, (ihx.1 hpt).1, (ihy.1 hpf).1, hlf⟩
+
+theorem parse_print (e : Expr) (h : PrecOK e = true) : parseArith (printArith e) = some e := by
+  have h1 := ((main_ind e).1 h).1 0 [] (Nat.zero_le _) (Or.inl rfl)
+  unfold parseArith
+  have hn := print_nonempty e
+  unfold ntoks at hn
+  have := h1 (20 * (printArith e).length + 20) (by unfold ntoks; omega)
+  simp only [List.append_nil, lvComma] at this ⊢
+  rw [this]
+
 end ShVerif.C20
